@@ -18,8 +18,25 @@
 //                             left-hand side prints as <lhs>   (x, rr.absPos, ...)
 //          cond:<k>           the condition of the k-th if statement of the function (source order)
 //          return:<k>[.i]     the i-th result of the k-th return statement
+//          incdec:<lhs>[#k]   the new value of the k-th  <lhs>++ / <lhs>--  statement (lhs + 1 / lhs - 1)
+//          kv:<Key>[#k]       the value of the k-th  Key: value  element of the composite literals of the
+//                             function (e.g. kv:Marker = the expression stored in rtp.Header.Marker)
+//          arg:<callee>[#k].<i>  the i-th argument of the k-th call whose callee prints as <callee>
+//                             (make, copy, e.vp.Payload, ...)
+//          case:<k>[.i]       the i-th expression of the k-th case clause of the function (the condition
+//                             of a tagless switch, the constant of a tagged one)
 //        free variables (identifiers, selectors a.b printed as a_b, len(x) printed as len_x) must be
-//        listed with their Go types.
+//        listed with their Go types.  Besides identifiers and selectors, two kinds of OPAQUE integer
+//        sub-expressions may be declared as free variables (they are not looked into):
+//          a[i]   an index expression, declared by its printed form without blanks   (lumaQuantizers[i]:int)
+//          f()    a call, declared by its callee followed by ()   (lenAggregated():int, e.lenAggregated():int);
+//                 every call of f inside the translated expression must have the same arguments, otherwise
+//                 the line is refused; Coq name call_f.
+//        Characters that cannot occur in a Coq identifier are replaced by '_' (len(pkt.Payload[2:]) is the
+//        free variable len_pkt_Payload_2__); two declared names with the same Coq name are refused.
+//   <dir> is relative to /repo, or  @<module path>/<subdir>  resolved through /repo/go.mod (as tools/genconsts).
+//
+//   go2coq -sites <dir> <FuncName|Recv.Method>   lists every site of a function with its index (no output file).
 //
 // Supported types: int int8 int16 int32 int64 uint uint8 byte uint16 uint32 uint64 bool time.Duration.
 // Semantics: every value is a Z inside the range of its type (arguments are assumed to be); every
@@ -51,6 +68,49 @@ func repoRoot() string {
 	return "/repo"
 }
 
+// srcDir resolves a spec directory: relative to the repository, or @module/sub/dir through the
+// repository's go.mod and the module cache (same rule as tools/genconsts)
+func srcDir(dir string) (string, error) {
+	if !strings.HasPrefix(dir, "@") {
+		return filepath.Join(repoRoot(), dir), nil
+	}
+	b, err := os.ReadFile(filepath.Join(repoRoot(), "go.mod"))
+	if err != nil {
+		return "", err
+	}
+	p := strings.TrimPrefix(dir, "@")
+	best, bestVer := "", ""
+	for _, l := range strings.Split(string(b), "\n") {
+		f := strings.Fields(strings.TrimSpace(l))
+		if len(f) >= 2 && strings.HasPrefix(f[1], "v") {
+			m := f[0]
+			if m == "require" && len(f) >= 3 {
+				m, f[1] = f[1], f[2]
+			}
+			if strings.HasPrefix(p, m) && len(m) > len(best) {
+				best, bestVer = m, f[1]
+			}
+		}
+	}
+	if best == "" {
+		return "", fmt.Errorf("module for %s not found in go.mod", dir)
+	}
+	gomodcache := os.Getenv("GOMODCACHE")
+	if gomodcache == "" {
+		home, _ := os.UserHomeDir()
+		gomodcache = filepath.Join(home, "go", "pkg", "mod")
+	}
+	esc := ""
+	for _, r := range best {
+		if r >= 'A' && r <= 'Z' {
+			esc += "!" + string(r+32)
+		} else {
+			esc += string(r)
+		}
+	}
+	return filepath.Join(gomodcache, esc+"@"+bestVer, strings.TrimPrefix(p, best)), nil
+}
+
 var intTypes = map[string]string{ // Go type -> normaliser
 	"int": "ki64", "int64": "ki64", "time.Duration": "ki64", "int32": "ki32", "int16": "ki16", "int8": "ki8",
 	"uint": "w64", "uint64": "w64", "uint32": "w32", "uint16": "w16", "uint8": "w8", "byte": "w8",
@@ -79,10 +139,20 @@ type env struct {
 	set  map[string]bool   // names assigned so far on this path (a later read is not a read of the argument)
 	chk  map[string]bool   // divisors already known to be non-zero on this path
 	fset *token.FileSet
+	call map[string]string // opaque callee -> printed arguments of its first occurrence
+}
+
+func noBlanks(s string) string {
+	return strings.Map(func(r rune) rune {
+		if r == ' ' || r == '\t' || r == '\n' {
+			return -1
+		}
+		return r
+	}, s)
 }
 
 func (e *env) clone() *env {
-	n := &env{vars: map[string]string{}, used: e.used, set: map[string]bool{}, chk: map[string]bool{}, fset: e.fset}
+	n := &env{vars: map[string]string{}, used: e.used, set: map[string]bool{}, chk: map[string]bool{}, fset: e.fset, call: e.call}
 	for k := range e.chk {
 		n.chk[k] = true
 	}
@@ -102,12 +172,28 @@ func pr(fset *token.FileSet, n ast.Node) string {
 }
 
 func coqName(s string) string {
-	s = strings.ReplaceAll(s, ".", "_")
+	var sb strings.Builder
+	for _, r := range s {
+		if r == '_' || (r >= '0' && r <= '9') || (r >= 'a' && r <= 'z') || (r >= 'A' && r <= 'Z') {
+			sb.WriteRune(r)
+		} else if r != ' ' && r != '\t' && r != '\n' {
+			sb.WriteByte('_')
+		}
+	}
+	s = sb.String()
 	switch s {
 	case "end", "in", "at", "as", "fun", "let", "match", "with", "if", "then", "else", "return", "type", "mod", "using":
 		return s + "_"
 	}
 	return s
+}
+
+// varCoq is the Coq name of a declared free variable (an opaque call f() is call_f)
+func varCoq(n string) string {
+	if strings.HasSuffix(n, "()") {
+		return "call_" + coqName(strings.TrimSuffix(n, "()"))
+	}
+	return coqName(n)
 }
 
 func zlit(b *big.Int) string {
@@ -187,6 +273,14 @@ func (e *env) expr(x ast.Expr) (val, error) {
 		}
 		e.used[n] = e.used[n] || !e.set[n]
 		return val{s: coqName(n), typ: t}, nil
+	case *ast.IndexExpr:
+		n := noBlanks(pr(e.fset, x))
+		t, ok := e.vars[n]
+		if !ok {
+			return val{}, fmt.Errorf("unknown index expression %s (not a declared free variable)", n)
+		}
+		e.used[n] = true
+		return val{s: coqName(n), typ: t}, nil
 	case *ast.UnaryExpr:
 		v, err := e.expr(x.X)
 		if err != nil {
@@ -231,6 +325,23 @@ func (e *env) expr(x ast.Expr) (val, error) {
 				return convConst(v, canon(fn))
 			}
 			return val{s: norm(fn, v.s), typ: canon(fn), guard: v.guard}, nil
+		}
+		if t, ok := e.vars[noBlanks(fn)+"()"]; ok {
+			n := noBlanks(fn) + "()"
+			var as []string
+			for _, a := range x.Args {
+				as = append(as, noBlanks(pr(e.fset, a)))
+			}
+			args := strings.Join(as, ",")
+			if e.call == nil {
+				e.call = map[string]string{}
+			}
+			if prev, seen := e.call[n]; seen && prev != args {
+				return val{}, fmt.Errorf("opaque call %s occurs with different arguments (%s) and (%s)", fn, prev, args)
+			}
+			e.call[n] = args
+			e.used[n] = true
+			return val{s: "call_" + coqName(noBlanks(fn)), typ: t}, nil
 		}
 		return val{}, fmt.Errorf("unsupported call %s", fn)
 	case *ast.BinaryExpr:
@@ -615,9 +726,13 @@ type pkg struct {
 
 var pkgs = map[string]*pkg{}
 
-func load(dir string) (*pkg, error) {
-	if p, ok := pkgs[dir]; ok {
+func load(spec string) (*pkg, error) {
+	if p, ok := pkgs[spec]; ok {
 		return p, nil
+	}
+	dir, err := srcDir(spec)
+	if err != nil {
+		return nil, err
 	}
 	fset := token.NewFileSet()
 	parsed, err := parser.ParseDir(fset, dir, func(fi os.FileInfo) bool {
@@ -661,7 +776,7 @@ func load(dir string) (*pkg, error) {
 			}
 		}
 	}
-	pkgs[dir] = p
+	pkgs[spec] = p
 	return p, nil
 }
 
@@ -678,7 +793,7 @@ func coqType(t string) string {
 }
 
 func translateFunc(coq, dir, fname string) (string, error) {
-	p, err := load(filepath.Join(repoRoot(), dir))
+	p, err := load(dir)
 	if err != nil {
 		return "", err
 	}
@@ -818,7 +933,7 @@ func translateFunc(coq, dir, fname string) (string, error) {
 }
 
 func translateExpr(coq, dir, fname, site, vars string) (string, error) {
-	p, err := load(filepath.Join(repoRoot(), dir))
+	p, err := load(dir)
 	if err != nil {
 		return "", err
 	}
@@ -832,9 +947,15 @@ func translateExpr(coq, dir, fname, site, vars string) (string, error) {
 		if d == "" || d == "-" {
 			continue
 		}
-		nt := strings.SplitN(d, ":", 2)
-		if len(nt) != 2 || !typeOK(nt[1]) {
+		ci := strings.LastIndex(d, ":")
+		if ci <= 0 || !typeOK(d[ci+1:]) {
 			return "", fmt.Errorf("bad free-variable declaration %q", d)
+		}
+		nt := []string{d[:ci], d[ci+1:]}
+		for _, o := range order {
+			if varCoq(o) == varCoq(nt[0]) {
+				return "", fmt.Errorf("free variables %s and %s have the same Coq name %s", o, nt[0], varCoq(o))
+			}
 		}
 		e.vars[nt[0]] = canon(nt[1])
 		order = append(order, nt[0])
@@ -886,6 +1007,67 @@ func translateExpr(coq, dir, fname, site, vars string) (string, error) {
 			}
 			return true
 		})
+	case "incdec":
+		lhs, ks, _ := strings.Cut(arg, "#")
+		k, _ := strconv.Atoi(ks)
+		ast.Inspect(fd.Body, func(n ast.Node) bool {
+			if st, ok := n.(*ast.IncDecStmt); ok && pr(p.fset, st.X) == lhs {
+				if k == 0 && target == nil {
+					op := token.ADD
+					if st.Tok == token.DEC {
+						op = token.SUB
+					}
+					target = &ast.BinaryExpr{X: st.X, Op: op, Y: &ast.BasicLit{Kind: token.INT, Value: "1"}}
+				}
+				k--
+			}
+			return true
+		})
+	case "kv":
+		key, ks, _ := strings.Cut(arg, "#")
+		k, _ := strconv.Atoi(ks)
+		ast.Inspect(fd.Body, func(n ast.Node) bool {
+			if kv, ok := n.(*ast.KeyValueExpr); ok && pr(p.fset, kv.Key) == key {
+				if k == 0 && target == nil {
+					target = kv.Value
+				}
+				k--
+			}
+			return true
+		})
+	case "arg":
+		ci := strings.LastIndex(arg, ".")
+		if ci < 0 {
+			return "", fmt.Errorf("site arg:<callee>[#k].<i> needs an argument index")
+		}
+		callee, ks, _ := strings.Cut(arg[:ci], "#")
+		k, _ := strconv.Atoi(ks)
+		i, err := strconv.Atoi(arg[ci+1:])
+		if err != nil {
+			return "", fmt.Errorf("bad argument index in %s", site)
+		}
+		ast.Inspect(fd.Body, func(n ast.Node) bool {
+			if ce, ok := n.(*ast.CallExpr); ok && noBlanks(pr(p.fset, ce.Fun)) == callee {
+				if k == 0 && target == nil && i < len(ce.Args) {
+					target = ce.Args[i]
+				}
+				k--
+			}
+			return true
+		})
+	case "case":
+		ks, is, _ := strings.Cut(arg, ".")
+		k, _ := strconv.Atoi(ks)
+		i, _ := strconv.Atoi(is)
+		ast.Inspect(fd.Body, func(n ast.Node) bool {
+			if cc, ok := n.(*ast.CaseClause); ok {
+				if k == 0 && target == nil && i < len(cc.List) {
+					target = cc.List[i]
+				}
+				k--
+			}
+			return true
+		})
 	default:
 		return "", fmt.Errorf("unknown site kind %q", kind)
 	}
@@ -904,7 +1086,7 @@ func translateExpr(coq, dir, fname, site, vars string) (string, error) {
 		if !e.used[n] {
 			return "", fmt.Errorf("%s %s: declared free variable %s does not occur in %s", fname, site, n, pr(p.fset, target))
 		}
-		args = append(args, "("+coqName(n)+" : "+coqType(e.vars[n])+")")
+		args = append(args, "("+varCoq(n)+" : "+coqType(e.vars[n])+")")
 	}
 	rt := coqType(v.typ)
 	body := v.s
@@ -916,7 +1098,67 @@ func translateExpr(coq, dir, fname, site, vars string) (string, error) {
 		dir, p.files[fd], fname, site, strings.ReplaceAll(pr(p.fset, target), "*)", "* )"), v.typ, coq, strings.Join(args, " "), rt, body), nil
 }
 
+// listSites prints every site of a function with its index (a help for writing spec lines)
+func listSites(dir, fname string) error {
+	p, err := load(dir)
+	if err != nil {
+		return err
+	}
+	fd, ok := p.funcs[fname]
+	if !ok || fd.Body == nil {
+		return fmt.Errorf("function %s not found in %s", fname, dir)
+	}
+	one := func(n ast.Node) string { return strings.Join(strings.Fields(pr(p.fset, n)), " ") }
+	line := func(n ast.Node) int { return p.fset.Position(n.Pos()).Line }
+	asg, inc, kvs, calls := map[string]int{}, map[string]int{}, map[string]int{}, map[string]int{}
+	conds, rets, cases := 0, 0, 0
+	ast.Inspect(fd.Body, func(n ast.Node) bool {
+		switch n := n.(type) {
+		case *ast.AssignStmt:
+			if len(n.Lhs) == 1 && len(n.Rhs) == 1 {
+				l := pr(p.fset, n.Lhs[0])
+				fmt.Printf("%5d  assign:%s#%d   %s\n", line(n), l, asg[l], one(n))
+				asg[l]++
+			}
+		case *ast.IncDecStmt:
+			l := pr(p.fset, n.X)
+			fmt.Printf("%5d  incdec:%s#%d   %s\n", line(n), l, inc[l], one(n))
+			inc[l]++
+		case *ast.IfStmt:
+			fmt.Printf("%5d  cond:%d   %s\n", line(n), conds, one(n.Cond))
+			conds++
+		case *ast.ReturnStmt:
+			fmt.Printf("%5d  return:%d   %s\n", line(n), rets, one(n))
+			rets++
+		case *ast.KeyValueExpr:
+			l := pr(p.fset, n.Key)
+			fmt.Printf("%5d  kv:%s#%d   %s\n", line(n), l, kvs[l], one(n.Value))
+			kvs[l]++
+		case *ast.CallExpr:
+			l := noBlanks(pr(p.fset, n.Fun))
+			for i, a := range n.Args {
+				fmt.Printf("%5d  arg:%s#%d.%d   %s\n", line(n), l, calls[l], i, one(a))
+			}
+			calls[l]++
+		case *ast.CaseClause:
+			for i, c := range n.List {
+				fmt.Printf("%5d  case:%d.%d   %s\n", line(n), cases, i, one(c))
+			}
+			cases++
+		}
+		return true
+	})
+	return nil
+}
+
 func main() {
+	if len(os.Args) == 4 && os.Args[1] == "-sites" {
+		if err := listSites(os.Args[2], os.Args[3]); err != nil {
+			fmt.Fprintln(os.Stderr, err)
+			os.Exit(2)
+		}
+		return
+	}
 	if len(os.Args) < 2 {
 		fmt.Fprintln(os.Stderr, "usage: go2coq spec-file")
 		os.Exit(2)
